@@ -325,11 +325,17 @@ def r6_formatter_dispatch(ctx, sym):
     wf = mod.func('FeedbackFieldWrapper.__format__')
     ctx.analysed_function(mod, wf)
     # abstract run over specs
-    for spec, want in (('name', ('fmt:name', '')), ('filename', ('fmt:filename', '')), ('>10:line', ('fmt:line', '>10')),
-                       ('', ('str', '')), ('>5', ('str', '>5'))):
-        fd = FD()
-        fmt = Obj('formatter', available=list(avail))
-        for name in avail:
+    from ..fdeval import module_resolver
+    for spec, want, names in (('name', ('fmt:name', ''), avail), ('filename', ('fmt:filename', ''), avail),
+                              ('>10:line', ('fmt:line', '>10'), avail), ('', ('str', ''), avail),
+                              ('>5', ('str', '>5'), avail),
+                              # the report's own formatter decides which names exist (a subclass may add some)
+                              ('bold', ('fmt:bold', ''), list(avail) + ['bold']),
+                              ('>3:bold', ('fmt:bold', '>3'), ['bold'] + list(avail))):
+        fd = FD(max_steps=100000, resolver=module_resolver(sym, mod))
+        fmt = Obj('formatter', available=list(names))
+        avail_ = names
+        for name in avail_:
             fmt.attrs['method:' + name] = (lambda n: (lambda v: Obj('rendered', how='fmt:' + n, of=v)))(name)
         raw = Obj('rawvalue')
 
